@@ -27,6 +27,9 @@ type PropConfig struct {
 	Assumptions []string      `json:"assumptions"`
 	Bounded     []BoundedSpec `json:"bounded"`
 	Clauses     map[string]string `json:"clauses"` // obligation-name regexp -> sentence of the property statement it carries
+	TimeoutMs   int           `json:"timeout_ms"` // quick-tier solver timeout per obligation (default 5000; retries use 2x and 3x)
+	LevelText   string        `json:"level_text"`
+	LevelNote   string        `json:"level_note"`
 }
 
 type FuncSel struct {
@@ -218,6 +221,12 @@ func runCheck(prop, tier, repo, evdir string, verbose bool) int {
 	work, _ := os.MkdirTemp("/var/tmp", "gcv-work-")
 	defer os.RemoveAll(work)
 	timeout := 5000
+	if cfg.TimeoutMs > 0 {
+		timeout = cfg.TimeoutMs
+	}
+	if cfg.Explanation == "" {
+		cfg.Explanation = strings.TrimSpace(cfg.LevelText + " " + cfg.LevelNote)
+	}
 	if tier == "thorough" {
 		timeout = 30000
 	}
